@@ -232,7 +232,7 @@ class C11(Prop):
         "sorted_flag_sound", "collect_then_tail", "tail_query_agrees", "rank_query_agrees", "tailmass_query_agrees",
         "settail_agrees_with_raw_data", "settailbymass_agrees_with_raw_data", "declare_censoring_agrees", "lognormal_fit_closed_form", "lognormal_mu_is_maximiser",
         "gumbel_profile_concave", "gumbel_complete_fit_near_optimal", "gumbel_censored_fit_near_optimal",
-        "cg_return_means_stopping_rule", "cg_hangs_only_in_brent", "weibull_sxp_fit_post", "truncated_gumbel_fit_post", "weibull_binned_fit_post", "gamma_engine_post", "cg_fit_location_is_minimum",
+        "cg_return_means_stopping_rule", "cg_hangs_only_in_brent", "weibull_sxp_fit_post", "truncated_gumbel_fit_post", "weibull_binned_fit_post", "gamma_binned_fit_post", "gamma_engine_post", "cg_fit_location_is_minimum",
         "exp_fit_closed_form", "exp_fit_is_maximiser", "gumbel_mu_is_maximiser", "lawless_is_derivative", "gumbel_complete_fit_stationary",
         "gumbel_censored_fit_stationary", "gumbel_loc_fits_closed_form", "gumbel_fits_terminate")]
     claimed = True
@@ -248,11 +248,14 @@ class C11(Prop):
                   "The hand model is tied to the working tree by a differential run (bit-identical on the clean tree; integers/copies exact, computed doubles to 1e-12/1e-7 relative) over histogram "
                   "histories and every closed-form/Newton fit; property monitors (exact rational bin membership, queries vs sorted raw data, local pattern search of an independently evaluated "
                   "log-likelihood around every optimiser result incl. binned fits, location = min x, recovery on exact quantile grids) report concrete failing inputs.")
-    level_note = ("Residual: binary64 rounding (L0) is not a theorem (values within rounding distance of a bin edge; exp(-lambda*x) under/overflow); the conjugate-gradient fits "
-                  "(Weibull, stretched exponential, truncated Gumbel, GEV, their binned variants) and the gamma generalized-Newton / binned bisection fits are NOT modelled: they are checked on the "
-                  "implementation's output (termination, documented status, finite parameters, local optimality within calibrated tolerances) - global optimality of an optimiser result is not claimed; "
-                  "log-normal sigma uses the n-1 (unbiased) variance, not the ML n; esl_rootfinder.c is not used by any fit and is not covered; libm exp/log and libc qsort are trusted. "
-                  "Seven genuine defects found while building this check were repaired in /repo (commits b44f0f8 7d6f911 fd84f7f bad2f4e 2487976 935fded 9b72a6e); their witnesses are corpus regression cases.")
+    level_note = ("Residual: binary64 rounding (L0) is not a theorem (values within rounding distance of a bin edge; exp(-lambda*x) under/overflow). "
+                  "The conjugate-gradient minimiser (esl_min_ConjugateGradientDescent, numeric_derivative, bracket, brent), the Weibull / stretched-exponential / truncated-Gumbel / binned-Weibull "
+                  "fits and the gamma fits (generalized Newton, count histogram, binned bisection, esl_stats_Psi/Trigamma/LogGamma) ARE modelled and compared with the C code on every run; proved for them: "
+                  "termination (caps; brent's uncapped loop only by fuel), documented status, location = smallest observation, eslOK => the optimiser's stopping rule held. NOT a theorem for them: that the "
+                  "point reached maximises the likelihood (monitored: local pattern search, fit >= generating parameters, recovery on exact quantile grids of every family). "
+                  "Not modelled (monitors only): GEV fits (log1p/expm1 are not available to the executable model), stretched-exponential binned fit (incomplete gamma function), esl_gumbel/esl_exp tail "
+                  "variants via SetExpectedTail. Log-normal sigma uses the n-1 variance, not the ML n; esl_rootfinder.c is not used by any fit; libm and libc qsort are trusted. "
+                  "Seven genuine defects found while building this check were repaired in /repo (b44f0f8 7d6f911 fd84f7f bad2f4e 2487976 935fded 9b72a6e); their witnesses are corpus regression cases.")
     diverge_is_violation = True
     fault_is_output = True      # faults are classified by monitor() (a hang inside a CG-based fit carries the known key)
     trusted_base = ["hand model of esl_histogram.c and of the closed-form/Newton fits tied by a bit-exact differential run (h_stats.c, ASan+UBSan build of the working tree)",
@@ -556,6 +559,7 @@ class C11(Prop):
             ops.append("hdump")
         ops.append("hexpfit")
         if rng.random() < 0.3: ops.append("hweifit")      # modelled: any histogram state, incl. censored / clamped cmin
+        if rng.random() < 0.3: ops.append("hgamfit")
         if rng.random() < 0.5:
             ops.append("hadd xs=" + d(some_phi()))
             ops.append("hdump")
@@ -1176,7 +1180,8 @@ class C11(Prop):
                 if mu != min(xs): return "stretched-exponential fit: mu=%r is not the smallest observation %r" % (mu, min(xs))
                 # unbounded likelihood (mu pinned to the smallest sample): the optimiser runs off along the ridge; no maximiser exists
                 # (the same with several observations tied at the minimum: the density at x = mu grows without bound as lambda -> inf)
-                if lam * (max(xs) - min(xs)) > 1e8 or tau < 1e-3 or xs.count(min(xs)) > 1: return None
+                # (and tau -> infinity, where the law tends to the uniform on [mu, mu+1/lambda]: the supremum is not attained)
+                if lam * (max(xs) - min(xs)) > 1e8 or tau < 1e-3 or tau > 20 or xs.count(min(xs)) > 1: return None
                 ll = lambda l, t: ll_sxp(xs, mu, l, t); p0 = (lam, tau); dd, rt = 0.05, 2e-3
             else:
                 phi = fbits(a["a"]); mu, lam = ps
